@@ -187,6 +187,16 @@ func IsPathValid(path string) error {
 	return nil
 }
 
+// IsDescendantPath checks whether the path lies strictly below the ancestor path, i.e. it continues
+// the ancestor at a path element boundary (a further element or a list key); /a/bc is not below /a/b
+func IsDescendantPath(path string, ancestor string) bool {
+	if ancestor == "/" {
+		return path != "/"
+	}
+	return strings.HasPrefix(path, ancestor) && len(path) > len(ancestor) &&
+		(path[len(ancestor)] == '/' || path[len(ancestor)] == '[')
+}
+
 // GetParentPath returns the immediate parent path of the specified path; empty string if "/" is given
 func GetParentPath(path string) string {
 	i := strings.LastIndex(path, "/")
